@@ -136,12 +136,50 @@ func dial(url string) (*websocket.Conn, error) {
 	return c, nil
 }
 
+type wsFrame struct {
+	typ websocket.MessageType
+	b   []byte
+	err error
+}
+
+// readers: connections whose frames are read by a goroutine of their own (as a real
+// client does: it keeps reading while it writes, which also answers the relay's pings).
+var readers sync.Map // *websocket.Conn -> chan wsFrame
+
+func startReader(c *websocket.Conn) {
+	ch := make(chan wsFrame, 4096)
+	readers.Store(c, ch)
+	go func() {
+		for {
+			typ, b, err := c.Read(context.Background())
+			ch <- wsFrame{typ, b, err}
+			if err != nil {
+				readers.Delete(c)
+				return
+			}
+		}
+	}()
+}
+
 // readUntilNotice reads text frames until a NOTICE with the given text arrives.
 func readUntilNotice(c *websocket.Conn, text string) (frames [][]byte, err error) {
 	ctx, cancel := context.WithTimeout(context.Background(), waitLong)
 	defer cancel()
+	chv, concurrent := readers.Load(c)
 	for {
-		typ, b, err := c.Read(ctx)
+		var typ websocket.MessageType
+		var b []byte
+		var err error
+		if concurrent {
+			select {
+			case f := <-chv.(chan wsFrame):
+				typ, b, err = f.typ, f.b, f.err
+			case <-ctx.Done():
+				err = ctx.Err()
+			}
+		} else {
+			typ, b, err = c.Read(ctx)
+		}
 		if err != nil {
 			return frames, fmt.Errorf("read: %w (after %d frames)", err, len(frames))
 		}
